@@ -107,7 +107,17 @@ pub fn random_op(r: &mut Rng, nch: u64, v: &mut Vec<i64>) {
     }
     let kind = *[0i64, 0, 0, 1, 5].get(r.below(5) as usize).unwrap();
     let c = r.below(nch) as i64;
-    match r.below(20) {
+    match r.below(22) {
+        20 => {
+            // a system message whose data bytes look like 14-bit CC traffic
+            let s = r.pick(&[241i64, 242, 242, 243, 240, 247, 248]);
+            v.extend_from_slice(&[kind, s, r.pick(&[0i64, 1, 2, 32, 33, 34]), r.below(128) as i64]);
+        }
+        21 => {
+            // a non-Control-Change channel message whose data bytes look like 14-bit CC traffic
+            let s = r.pick(&[128i64, 144, 160, 192, 208, 224]) + c;
+            v.extend_from_slice(&[kind, s, r.pick(&[0i64, 1, 2, 32, 33, 34]), r.below(128) as i64]);
+        }
         0 => v.extend_from_slice(&[2, 0, 0, 0]),
         1 => {
             // any message of the full alphabet
@@ -208,7 +218,7 @@ const ABS: [[i64; 4]; 10] = [
     [0, 177, 1, 10],
     [1, 177, 33, 11],
     [2, 0, 0, 0],
-    [0, 248, 0, 0],
+    [0, 242, 33, 12],
 ];
 
 pub fn gen_c08(tier: Tier, seed: u64, em: &mut Emitter) {
